@@ -1,4 +1,5 @@
 import MosnVerif.Lemmas.HealthFlags
+import MosnVerif.Lemmas.HealthRegistry
 import MosnVerif.Lemmas.HealthCheck
 import MosnVerif.Lemmas.HealthLoop
 /-!
@@ -6,6 +7,9 @@ import MosnVerif.Lemmas.HealthLoop
 
 Part A (`HealthFlags`): the shared flag word under every interleaving of the atomic accesses that
 `SetHealthFlag`/`ClearHealthFlag` perform (step structure regenerated from health.go).
+Part A' (`HealthRegistry`): the allocation of that word — host objects created concurrently for the same address obtain the
+SAME word under every interleaving of the `healthStore` operations `GetHealthFlagPointer` performs (step program
+regenerated from health.go), so Part A applies across host objects.
 Part B (`HealthCheck`): the regenerated `HandleSuccess/HandleFailure` automaton against a run-length reference.
 -/
 namespace MosnVerif.Props.C16
@@ -172,6 +176,166 @@ theorem load_store_loses_update :
   decide
 
 end Flags
+
+
+section Allocation
+open MosnVerif.Model.HealthFlags MosnVerif.Model.HealthRegistry
+
+/-- **pointer_unique**: for EVERY well-formed initial `healthStore` (any known addresses with any words), EVERY set of
+threads (each creating a host object for some address, then making any Set/Clear calls through it) and EVERY schedule —
+complete or not, pointer lookups and flag updates interleaved arbitrarily — any two host objects of the SAME address that
+have obtained their word hold the same word, and it is the word `healthStore` holds for the address (so every later
+lookup gets it too). -/
+theorem pointer_unique (reg : Reg) (heap : List Word) (hreg : RegOK reg heap) (specs : List (Addr × List Op))
+    (s : List Nat) (i j : Nat) (ti tj : HThread) (x y : Nat)
+    (hi : ((World.init reg heap specs).run genPP genP s).threads[i]? = some ti)
+    (hj : ((World.init reg heap specs).run genPP genP s).threads[j]? = some tj)
+    (ha : ti.addr = tj.addr) (hx : ti.ptr = some x) (hy : tj.ptr = some y) :
+    x = y ∧ ((World.init reg heap specs).run genPP genP s).reg.lookup ti.addr = some x := by
+  have inv := winv_run genPP genP genPP_safe _ (winv_init reg heap hreg specs) s
+  have h1 := inv.ptr ti (List.mem_of_getElem? hi) x hx
+  have h2 := inv.ptr tj (List.mem_of_getElem? hj) y hy
+  rw [← ha, h1] at h2
+  exact ⟨by cases h2; rfl, h1⟩
+
+/-- host objects of DIFFERENT addresses never share a word (a condition of one address is never reported for another) -/
+theorem pointer_separate (reg : Reg) (heap : List Word) (hreg : RegOK reg heap) (specs : List (Addr × List Op))
+    (s : List Nat) (i j : Nat) (ti tj : HThread) (x y : Nat)
+    (hi : ((World.init reg heap specs).run genPP genP s).threads[i]? = some ti)
+    (hj : ((World.init reg heap specs).run genPP genP s).threads[j]? = some tj)
+    (ha : ti.addr ≠ tj.addr) (hx : ti.ptr = some x) (hy : tj.ptr = some y) : x ≠ y := by
+  have inv := winv_run genPP genP genPP_safe _ (winv_init reg heap hreg specs) s
+  have h1 := inv.ptr ti (List.mem_of_getElem? hi) x hx
+  have h2 := inv.ptr tj (List.mem_of_getElem? hj) y hy
+  intro he; subst he
+  exact ha (inv.inj _ _ _ h1 h2)
+
+/-- an address keeps its word: once `healthStore` maps an address to a word, no step of any thread changes that entry -/
+theorem registry_stable (w : World) (s : List Nat) (a : Addr) (id : Nat) (h : w.reg.lookup a = some id) :
+    (w.run genPP genP s).reg.lookup a = some id :=
+  reg_stable_run genPP genP genPP_safe w s a id h
+
+/-- **hosts_refine_one_word** (this is what makes Part A apply across host objects): under every schedule of the world,
+what the host objects of address `a` do is exactly a run of the one-word model of Part A — the calls of all host
+objects of `a` as threads over the ONE word of `a` — under the sub-schedule of the accesses of that word; pointer lookups,
+registrations of other addresses and updates of other addresses' words are invisible to it. -/
+theorem hosts_refine_one_word (reg : Reg) (heap : List Word) (hreg : RegOK reg heap) (specs : List (Addr × List Op))
+    (s : List Nat) (a : Addr) :
+    ((World.init reg heap specs).run genPP genP s).view a =
+      (Config.init ((World.init reg heap specs).wordOf a) (callsOf specs a)).run genP
+        ((World.init reg heap specs).flagSched genPP genP a s) := by
+  rw [view_run genPP genP genPP_safe _ (winv_init reg heap hreg specs) a s, init_view]
+
+/-- **linearizable_across_hosts**: for every initial `healthStore`, every set of host-creating threads and every schedule
+that runs them to completion, the final word of EVERY address is the result of applying, one after the other in the
+order of their single atomic update, the calls made through ALL host objects of that address, each host object's calls
+exactly once and in its program order; calls made through host objects of other addresses do not occur in it. -/
+theorem linearizable_across_hosts (reg : Reg) (heap : List Word) (hreg : RegOK reg heap) (specs : List (Addr × List Op))
+    (s : List Nat) (a : Addr) (hdone : ((World.init reg heap specs).run genPP genP s).done = true) :
+    ((World.init reg heap specs).run genPP genP s).wordOf a =
+      applyAll ((World.init reg heap specs).wordOf a)
+        ((Config.init ((World.init reg heap specs).wordOf a) (callsOf specs a)).log genP
+          ((World.init reg heap specs).flagSched genPP genP a s)) ∧
+    ∀ j, proj j ((Config.init ((World.init reg heap specs).wordOf a) (callsOf specs a)).log genP
+          ((World.init reg heap specs).flagSched genPP genP a s)) = (callsOf specs a)[j]?.getD [] := by
+  have hv := hosts_refine_one_word reg heap hreg specs s a
+  have hd : ((Config.init ((World.init reg heap specs).wordOf a) (callsOf specs a)).run genP
+      ((World.init reg heap specs).flagSched genPP genP a s)).done = true := by
+    rw [← hv]; exact done_view _ hdone a
+  obtain ⟨h1, h2⟩ := linearizable _ _ _ hd
+  refine ⟨?_, h2⟩
+  rw [← h1, ← hv]; rfl
+
+/-- a condition no host object of the address sets or clears keeps its value — also when the host objects are created
+concurrently (Part A's `untouched_bit_kept` through the refinement) -/
+theorem untouched_bit_kept_across_hosts (reg : Reg) (heap : List Word) (hreg : RegOK reg heap)
+    (specs : List (Addr × List Op)) (s : List Nat) (a : Addr)
+    (hdone : ((World.init reg heap specs).run genPP genP s).done = true) (i : Nat)
+    (hno : ∀ sp ∈ specs, sp.1 = a → ∀ op ∈ sp.2, op.flag.getLsbD i = false) :
+    (((World.init reg heap specs).run genPP genP s).wordOf a).getLsbD i =
+      ((World.init reg heap specs).wordOf a).getLsbD i := by
+  have hv := hosts_refine_one_word reg heap hreg specs s a
+  have hd : ((Config.init ((World.init reg heap specs).wordOf a) (callsOf specs a)).run genP
+      ((World.init reg heap specs).flagSched genPP genP a s)).done = true := by
+    rw [← hv]; exact done_view _ hdone a
+  have := untouched_bit_kept _ _ _ hd i (by
+    intro l hl op hop
+    simp only [callsOf, List.mem_map] at hl
+    obtain ⟨sp, hsp, rfl⟩ := hl
+    by_cases h : sp.1 = a
+    · simp only [h, if_true] at hop; exact hno sp hsp h op hop
+    · simp [h] at hop)
+  rw [← hv] at this
+  exact this
+
+/-- the executable predicate evaluated on the implementation's observations is implied by the model: for every initial
+`healthStore`, every set of host-creating threads and every completing schedule, what a harness observes afterwards
+through the host objects (every word, every `Health()`, and a probe condition set through each host object in turn)
+satisfies `HealthRegistry.holds` — all host objects of an address agree, nothing is lost or invented, healthy ⇔ no
+condition. -/
+theorem spec_holds_on_model_alloc (reg : Reg) (heap : List Word) (hreg : RegOK reg heap) (specs : List (Addr × List Op))
+    (s : List Nat) (hdone : ((World.init reg heap specs).run genPP genP s).done = true) :
+    holds specs (fun a => match reg.lookup a with
+        | some id => heap[id]?.getD 0
+        | none => 0) ((World.init reg heap specs).run genPP genP s).observe = true := by
+  apply holds_observe specs _ _ (winv_run genPP genP genPP_safe _ (winv_init reg heap hreg specs) s) hdone
+  · rw [run_addr genPP genP genPP_safe, init_addr]
+  · intro a
+    rw [genP_cas] at hdone ⊢
+    obtain ⟨h1, h2⟩ := across_cas genPP genPP_safe reg heap hreg specs s a hdone
+    rw [h1, init_wordOf]
+    exact seqCheck_of_log _ _ _ h2
+
+/-- **a completing schedule always exists** (the hypothesis `done` of the theorems above is never vacuous, and no set of
+host-creating threads can be wedged): from EVERY well-formed initial `healthStore` and every set of threads some
+schedule runs all of them to completion — one thread at a time obtains its word within the length of the pointer
+program, then completes each call within three steps. -/
+theorem complete_schedule_exists_alloc (reg : Reg) (heap : List Word) (hreg : RegOK reg heap)
+    (specs : List (Addr × List Op)) : ∃ s, ((World.init reg heap specs).run genPP genP s).done = true := by
+  rw [genP_cas]
+  obtain ⟨h1, h2⟩ := init_reachable reg heap specs
+  exact exists_complete_world genPP genPP_safe genPP_term _ _ (winv_init reg heap hreg specs) h1 h2 rfl
+
+-- non-vacuity: a well-formed non-empty `healthStore`; a contended (round-robin) schedule of three host-creating threads
+-- (two for the fresh address 7, one for the known address 3) that completes with the two hosts of address 7 sharing one
+-- word.  (Steps of a finished thread are no-ops, so the schedule also completes for pointer programs with two steps.)
+example : RegOK [(3, 0)] [5] := ⟨by intro a id; simp [List.lookup]; split <;> simp_all, by
+  intro a b id; simp only [List.lookup]; split <;> split <;> simp_all⟩
+example :
+    ((World.init [(3, 0)] [5] [(7, [.set 1]), (7, [.set 2]), (3, [.clear 4])]).run genPP genP
+      [0, 1, 2, 0, 1, 2, 0, 1, 2, 0, 1, 2, 0, 1, 2, 0, 1, 2, 0, 1, 2, 0, 1, 2]).done = true ∧
+    ((World.init [(3, 0)] [5] [(7, [.set 1]), (7, [.set 2]), (3, [.clear 4])]).run genPP genP
+      [0, 1, 2, 0, 1, 2, 0, 1, 2, 0, 1, 2, 0, 1, 2, 0, 1, 2, 0, 1, 2, 0, 1, 2]).threads.map (·.ptr)
+        = [some 1, some 1, some 0] ∧
+    ((World.init [(3, 0)] [5] [(7, [.set 1]), (7, [.set 2]), (3, [.clear 4])]).run genPP genP
+      [0, 1, 2, 0, 1, 2, 0, 1, 2, 0, 1, 2, 0, 1, 2, 0, 1, 2, 0, 1, 2, 0, 1, 2]).heap = [1, 3] := by decide
+
+/-- **the "Load, and on a miss allocate + Store" shape does NOT give one word per address**: two threads create a host
+object for the same not-yet-known address, schedule Load₀ Load₁ Store₀ Store₁ (both miss, both allocate, the later Store
+wins the map); thread 0 then sets a condition through its host object.  The run completes, the two host objects hold
+DIFFERENT words, the condition is lost for host object 1 — it keeps reporting healthy — and for every later lookup, and
+the executable predicate rejects the observation. -/
+theorem load_then_store_splits :
+    ((World.init [] [] [(7, [.set 1]), (7, [])]).run loadThenStorePP genP [0, 1, 0, 1, 0, 0]).done = true ∧
+    ((World.init [] [] [(7, [.set 1]), (7, [])]).run loadThenStorePP genP [0, 1, 0, 1, 0, 0]).threads.map (·.ptr)
+      = [some 0, some 1] ∧
+    ((World.init [] [] [(7, [.set 1]), (7, [])]).run loadThenStorePP genP [0, 1, 0, 1, 0, 0]).observe.words
+      = [(1, false), (0, true)] ∧
+    ((World.init [] [] [(7, [.set 1]), (7, [])]).run loadThenStorePP genP [0, 1, 0, 1, 0, 0]).wordOf 7 = 0 ∧
+    holds [(7, [.set 1]), (7, [])] (fun _ => 0)
+      ((World.init [] [] [(7, [.set 1]), (7, [])]).run loadThenStorePP genP [0, 1, 0, 1, 0, 0]).observe = false := by
+  decide
+
+-- the same threads under the current source (round-robin): one word, the condition is seen through both host objects
+example :
+    ((World.init [] [] [(7, [.set 1]), (7, [])]).run genPP genP [0, 1, 0, 1, 0, 1, 0, 1]).done = true ∧
+    ((World.init [] [] [(7, [.set 1]), (7, [])]).run genPP genP [0, 1, 0, 1, 0, 1, 0, 1]).observe.words
+      = [(1, false), (1, false)] ∧
+    holds [(7, [.set 1]), (7, [])] (fun _ => 0)
+      ((World.init [] [] [(7, [.set 1]), (7, [])]).run genPP genP [0, 1, 0, 1, 0, 1, 0, 1]).observe = true := by
+  decide
+
+end Allocation
 
 section Thresholds
 open MosnVerif.Model.HealthCheck
